@@ -46,7 +46,7 @@ RULE = (
 )
 ASSUMPTIONS = [
     "models are hand-written parameter sets loaded through BaseModel.load(dict); fits are tiny (3 or 2 individuals, n_iter=3), "
-    "MCMC personalizations use n_iter=8, scipy_minimize its defaults; cohorts A (3 individuals) and B (2 individuals)",
+    "MCMC personalizations use n_iter=10, scipy_minimize its defaults; cohorts A (3 individuals), B (2 individuals), C (1 individual, personalization only)",
     "every call is given an explicit seed (the property speaks of 'parameters, inputs and the seed'); n_jobs=1",
     "fit is only a history-making operation: nothing is demanded of fit itself (a fit started on an object that still holds "
     "another cohort's latent values fails - that history is pruned and counted as an outcome)",
@@ -68,9 +68,8 @@ THOROUGH_SPECS = (
 def menu(spec, tier):
     forms = L.forms_for(spec)
     ops = []
-    fit_cohorts = ("A",) if tier == "quick" else ("A", "B")
-    for i, c in enumerate(fit_cohorts):
-        ops.append(["fit", c, forms[i % len(forms)]])
+    for i, c in enumerate(("A", "B")):
+        ops.append(["fit", c, forms[(2 * i) % len(forms)]])
     ops.append(["estimate"])
     k = 0
     for algo in ALGOS:
@@ -79,7 +78,10 @@ def menu(spec, tier):
                 continue
             ops.append(["personalize", algo, cohort, forms[k % len(forms)]])
             k += 1
+    # a single-individual cohort
+    ops.append(["personalize", "scipy_minimize", "C", forms[k % len(forms)]])
     if tier != "quick":
+        ops.append(["personalize", "mode_posterior", "C", forms[(k + 1) % len(forms)]])
         # every input form for one optimiser-based and one sampler-based personalization
         for algo in ("scipy_minimize", "mode_posterior"):
             for f in forms:
@@ -99,14 +101,14 @@ def bounds(tier):
         return {
             "models": list(QUICK_SPECS),
             "depth": 3,
-            "menu": "fit(A), estimate, personalize: scipy(A,B) mode(B) mean(B), simulate[dataframe] (logistic), save+load; "
-                    "input forms rotate over DataFrame/Data/Dataset",
+            "menu": "fit(A), fit(B), estimate, personalize: scipy(A,B,C) mode(B) mean(B), simulate[dataframe] (logistic), save+load; "
+                    "input forms rotate over DataFrame with columns / DataFrame indexed by (ID, TIME) / Data / Dataset",
             "seeds": "algorithm seed 0 (+ VERIF_SEED on the first model)",
         }
     return {
         "models": list(THOROUGH_SPECS),
         "depth": 4,
-        "menu": "fit(A), fit(B), estimate, personalize: 3 algorithms x cohorts A,B + every input form for scipy_minimize/B and "
+        "menu": "fit(A), fit(B), estimate, personalize: 3 algorithms x cohorts A,B + scipy/mode on the single-individual cohort C + every input form for scipy_minimize/B and "
                 "mode_posterior/B, simulate[dataframe|random] (logistic), save+load",
         "seeds": "algorithm seed 0 (+ VERIF_SEED on the first two models)",
     }
